@@ -15,6 +15,7 @@ mod framing;
 mod pid;
 mod elixir;
 mod serde_dom;
+mod conn;
 
 #[global_allocator]
 static GLOBAL: alloc::Counting = alloc::Counting;
@@ -22,7 +23,9 @@ static GLOBAL: alloc::Counting = alloc::Counting;
 fn main() {
     let domain = std::env::args().nth(1).unwrap_or_default();
     // silence panic messages: a panic is an outcome we print ourselves
-    std::panic::set_hook(Box::new(|_| {}));
+    if std::env::var_os("HARNESS_DEBUG").is_none() {
+        std::panic::set_hook(Box::new(|_| {}));
+    }
     let f: fn(&str) -> String = match domain.as_str() {
         "frag" => frag::run_case,
         "handshake" => handshake::run_case,
@@ -33,6 +36,7 @@ fn main() {
         "pid" => pid::run_case,
         "elixir" => elixir::run_case,
         "serde" => serde_dom::run_case,
+        "conn" => conn::run_case,
         _ => {
             eprintln!("unknown domain {domain}");
             std::process::exit(2);
